@@ -424,6 +424,12 @@ def c05(tier, seed):
               "stack and every drawn pixel is validated against Allowed under the intersection/product of all of it; simulation adds depth 4-5 "
               "histories with layers; non-trivial = the surface changed")
     v.trusted = ["harness interpreter (harness/src/canvas.rs)", "Coverage.tla for clip path coverage", "Pixel.tla"]
+    # design level: the clip/layer stacks and the index arithmetic of composite() and its blitters
+    # (CanvasImpl.tla, as repaired) against the whole-stack semantics, every nested history to depth D
+    r = run_tlc("C05", "MC_CanvasImpl", env={"D": 4 if th else 3}, workers=12, timeout=2400)
+    v.add_tlc(r)
+    v.extra["ip_refinement"] = ("MC_CanvasImpl: top-of-stack clip entry = intersection/product of all pushed clips, layer allocation, "
+                                "no out-of-range index, accesses = exactly the effective region with each pixel's own mask and clip bytes; %d states" % r.distinct)
     scs = canvas_gen("C05", v, "clip", 2, 12 if th else 5, salt=seed)
     scs += canvas_gen("C05", v, "clip", 3, 2 if th else 1, salt=seed + 1) if th else []
     scs += canvas_gen("C05", v, "clip", 5, 3, draws=2, simulate=5000 if th else 900, depth=9, seed=seed, salt=seed)
@@ -443,6 +449,9 @@ def c06(tier, seed):
               "Composite(blend, layer pixel, previous, opacity, clip); the visible surface must not change while a layer is open; depths and "
               "transform are compared after every call; non-trivial = the surface changed")
     v.trusted = ["harness interpreter and shadow targets (harness/src/canvas.rs)", "Pixel.tla", "Coverage.tla"]
+    r = run_tlc("C06", "MC_CanvasImpl", env={"D": 4 if th else 3}, workers=12, timeout=2400)
+    v.add_tlc(r)
+    v.extra["ip_refinement"] = "MC_CanvasImpl (layers at offsets, pop_layer through the surface-sized opacity mask): %d states" % r.distinct
     scs = canvas_gen("C06", v, "layer", 2, 10 if th else 3, salt=seed)
     scs += canvas_gen("C06", v, "layerclip", 3, 6 if th else 2, salt=seed + 1)
     scs += canvas_gen("C06", v, "layer", 5, 3, draws=3, simulate=5000 if th else 900, depth=10, seed=seed, salt=seed)
